@@ -48,6 +48,8 @@ Inductive term :=
 | TyLen (k : Z)                    (* a type-level length with <_ as Unsigned>::USIZE = k *)
 | ConstPath (k : Z)                (* a path naming a `const _: usize = k` item: it parses as a
                                       type AND as an expression *)
+| CfgOut (t : term)                (* #[cfg(any())] t : an expression fragment whose attribute compiles it OUT of
+                                      the list position it ends up in (array / vec! literal elements) *)
 (* what the transcribers are made of *)
 | MV (x : mvar)                    (* $x at the current repetition depth *)
 | Usize (ty : term)                (* <ty as $crate::typenum::Unsigned>::USIZE *)
@@ -66,6 +68,7 @@ Inductive term :=
      (* { [const] fn __do_transmute<T, N: ArrayLength>(arr: [T; plen]) -> GenericArray<T, N>
             { fbody }   body } *)
 | Unwrap (t : term)                (* t.unwrap() *)
+| UnsafeBlk (t : term)             (* unsafe { t }: transparent for evaluation; what matters is WHAT is inside *)
 | MacroCall (m : mname) (kw : Z) (s : tseq)            (* $crate::m!(@kw s); kw = 0: no keyword *)
 with tseq :=
 | SNil
@@ -146,8 +149,9 @@ Fixpoint subst (b : bind) (t : term) : term :=
   | ConstItem c i body => ConstItem c (subst b i) (subst b body)
   | LocalFn k p fb body => LocalFn k (subst b p) (subst b fb) (subst b body)
   | Unwrap u => Unwrap (subst b u)
+  | UnsafeBlk u => UnsafeBlk (subst b u)
   | MacroCall m kw s => MacroCall m kw (subst_seq b s)
-  | User _ _ _ | TyLen _ | ConstPath _ | TyParamN | CRef _ | Param | UnitLit => t
+  | User _ _ _ | TyLen _ | ConstPath _ | CfgOut _ | TyParamN | CRef _ | Param | UnitLit => t
   end
 with subst_seq (b : bind) (s : tseq) : tseq :=
   match s with
@@ -212,7 +216,8 @@ Fixpoint map_calls (h : mname -> Z -> tseq -> term) (t : term) : term :=
   | ConstItem c i body => ConstItem c (map_calls h i) (map_calls h body)
   | LocalFn k p fb body => LocalFn k (map_calls h p) (map_calls h fb) (map_calls h body)
   | Unwrap u => Unwrap (map_calls h u)
-  | User _ _ _ | TyLen _ | ConstPath _ | MV _ | TyParamN | CRef _ | Param | UnitLit => t
+  | UnsafeBlk u => UnsafeBlk (map_calls h u)
+  | User _ _ _ | TyLen _ | ConstPath _ | CfgOut _ | MV _ | TyParamN | CRef _ | Param | UnitLit => t
   end
 with map_calls_seq (h : mname -> Z -> tseq -> term) (s : tseq) : tseq :=
   match s with
@@ -241,6 +246,34 @@ Definition recursion_limit : nat := 128.     (* rustc's default #![recursion_lim
 
 Definition expand (d : decls) (m : mname) (i : input) : option term :=
   match expand1 d m i with Some t => Some (resolve d recursion_limit t) | None => None end.
+
+(* ---------------------------------------------------------------- unsafe hygiene (static)
+   [exposed inu t]: some fragment written by the CALLER (an opaque expression, a constant path, or a
+   metavariable that stands for one) occurs inside an `unsafe { }` block of the transcriber ([inu] = we are
+   inside one).  Such a fragment would be compiled in an unsafe context the caller did not write: unsafe
+   operations in it would be accepted silently, and the caller's own `unsafe { }` would be reported as unused. *)
+Fixpoint exposed (inu : bool) (t : term) : bool :=
+  match t with
+  | User _ _ _ | ConstPath _ | CfgOut _ | MV _ => inu
+  | TyLen _ | TyParamN | CRef _ | Param | UnitLit => false
+  | Usize ty => exposed inu ty
+  | ConstLen n => exposed inu n
+  | Call _ ty s => (match ty with Some u => exposed inu u | None => false end) || exposed_seq inu s
+  | ArrayLit s | VecLit s => exposed_seq inu s
+  | ArrayRepeat x n | VecRepeat x n => exposed inu x || exposed inu n
+  | ConstItem _ i body => exposed inu i || exposed inu body
+  (* the body of a local fn is an item: it does not inherit the unsafe context of the place it is written in *)
+  | LocalFn _ p fb body => exposed inu p || exposed false fb || exposed inu body
+  | Unwrap u => exposed inu u
+  | UnsafeBlk u => exposed true u
+  | MacroCall _ _ s => exposed_seq inu s
+  end
+with exposed_seq (inu : bool) (s : tseq) : bool :=
+  match s with
+  | SNil => false
+  | SCons t r => exposed inu t || exposed_seq inu r
+  | SRep _ body r => exposed inu body || exposed_seq inu r
+  end.
 
 (* ---------------------------------------------------------------- evaluation *)
 Inductive value :=
@@ -384,6 +417,9 @@ Fixpoint eval (d : decls) (w : world) (cx : ctx) (e : env) (t : term) (lg : list
       | Const => if c then Done (VE v, lg) else CompileError ENotConst
       end
   | ConstPath k => Done (VE k, lg)
+  (* outside a list position an expression cannot be removed ("removing an expression is not supported in this
+     position") *)
+  | CfgOut _ => CompileError EType
   | TyLen _ | ConstLen _ | TyParamN => CompileError EType
   | MV _ | MacroCall _ _ _ => CompileError EUnexpanded
   | Usize ty => do k <- eval_ty d w e ty; Done (VE k, lg)
@@ -433,6 +469,7 @@ Fixpoint eval (d : decls) (w : world) (cx : ctx) (e : env) (t : term) (lg : list
           do (v, lg1) <- eval d w cx e u lg;
           match v with VOk b => Done (b, lg1) | VErr => Panic | _ => CompileError EType end
       end
+  | UnsafeBlk u => eval d w cx e u lg
   | Call f ty s =>
       do (vs, lg1) <- eval_seq d w cx e s lg;
       match ty with
@@ -454,6 +491,7 @@ with eval_seq (d : decls) (w : world) (cx : ctx) (e : env) (s : tseq) (lg : list
     {struct s} : mres (list value * list lev) :=
   match s with
   | SNil => Done ([], lg)
+  | SCons (CfgOut _) r => eval_seq d w cx e r lg      (* the element is compiled out: not there, not evaluated *)
   | SCons t r =>
       do (v, lg1) <- eval d w cx e t lg;
       do (vs, lg2) <- eval_seq d w cx e r lg1;
